@@ -24,6 +24,15 @@ fn from_bytes_assumed_in_range(bytes: &p384::FieldBytes) -> Result<p384::ecdsa::
     kani::assume(p384::model::in_range(&d));
     Ok(p384::ecdsa::SigningKey::from(p384::NonZeroScalar::model_new_unchecked(&d)))
 }
+/// For seal_fail_closed_h: the key pair of the (previewed, assumed in-range) ephemeral draw is derived by the harness BEFORE
+/// seal_key runs and handed out here without model calls, so that the path on which the RNG fails (no derivation) and the
+/// path on which it succeeds leave the same model-call count behind (README rule 3).
+fn from_bytes_precomputed(bytes: &p384::FieldBytes) -> Result<p384::ecdsa::SigningKey, p384::ecdsa::Error> {
+    let s = p384::model::stashed();
+    kani::assume(s.model_bytes()[..] == bytes[..]);
+    Ok(p384::ecdsa::SigningKey::from(s))
+}
+
 /// [C07] seal_key == spec for the ephemeral secret it drew; [C05] 129 bytes; [C16] one fresh 48-byte draw
 pub fn seal_is_spec() {
     let d = any_scalar();
@@ -132,11 +141,16 @@ pub fn unseal_len(L: usize) {
 
 /// [C16] RNG failure at the ephemeral-key draw => Err(CryptoError), no blob. (The rejection-sampling loop of
 /// SecretKey::random() with a failure at its second draw is explored in v3_public::secret_key_random_h — same function;
-/// here the draw is assumed in range so that the rest of seal_key runs with a concrete model-call count.)
+/// here the draw is assumed in range and its key pair precomputed, see from_bytes_precomputed.)
 pub fn seal_fail_closed() {
     let d = any_scalar();
     let pdk: [u8; 32] = kani::any();
     let pk = pk_of(&d);
+    let d0 = vmodel_core::rng_preview(0);
+    let mut esk = [0u8; 48];
+    esk.copy_from_slice(&d0[..48]);
+    kani::assume(p384::model::in_range(&esk));
+    p384::model::stash(&esk);
     vmodel_core::rng_may_fail(true);
     let r = <V3 as PkeSealingVersion>::seal_key(&pk, LocalKey(pdk));
     let all_ok = vmodel_core::rng_all_ok();
@@ -204,7 +218,9 @@ inst! { from_bytes_assumed_in_range:
     unseal_len_128 = unseal_len(128); unseal_len_129 = unseal_len(129); unseal_len_130 = unseal_len(130);
     pke_key_codec_h = pke_key_codec();
     pke_secret_key_codec_h = pke_secret_key_codec();
-    seal_fail_closed_h = seal_fail_closed();
     canary_inputs_h = canary_inputs();
+}
+inst! { from_bytes_precomputed:
+    seal_fail_closed_h = seal_fail_closed();
 }
 // @@PLAYBACK@@
